@@ -127,7 +127,8 @@ def _worker_eval(args):
         hook = getattr(mod, "exception_tags", None)
         if hook is not None:
             v["tags"] = list(v["tags"]) + list(hook(case, exc))
-        res = {"violations": [v], "outcome": "exception"}
+        # a case on which the library raised is a case on which the oracle fired
+        res = {"violations": [v], "outcome": "exception", "nontrivial": [case]}
     res.setdefault("violations", [])
     res["case"] = case
     res["wall"] = time.time() - t0
@@ -311,6 +312,10 @@ class Ctx:
             except ImportError:
                 pass
             except Exception as exc:  # noqa: BLE001
+                if n_viol:
+                    # never let an evidence problem mask a violation verdict
+                    print(f"note: evidence file does not validate ({str(exc).splitlines()[0]})")
+                    return
                 msg = f"evidence file does not validate: {exc}"
                 raise HarnessError(msg) from exc
 
